@@ -1,4 +1,7 @@
 """C07 - sigma clipping rejects exactly the points beyond the cut-off of the current fit."""
+import json
+import os
+
 import numpy as np
 
 import gen_fit as G
@@ -22,13 +25,14 @@ def run_trace(lf, pr, sigma, stat, accum, K):
     return trace
 
 
-def coq_case(pr, sigma, stat, accum, trace):
+def coq_case(pr, sigma, stat, accum, trace, exact=False):
     trs = lst(['{| t_mask := %s; t_eff := %s; t_par := %s; t_stats := %s |}' % (
         blist(e['mask']), nat(e['eff']), lst([q(frac(v)) for v in e['par']]), lst([q(v) for v in e['stats']]))
         for e in trace])
     return ('{| k_g := %s; k_p := %s; k_wxy := %s; k_wuv := %s; k_nsig := %s; k_st := %s; k_accum := %s; '
-            'k_trace := %s |}' % (G.COQ_GEOM[pr['geom']], G.coq_pts(pr['xy'], pr['uv']), G.coq_optw(pr['wxy']),
-                                  G.coq_optw(pr['wuv']), q(sigma), STATS[stat], b(accum), trs))
+            'k_exact := %s; k_trace := %s |}' % (G.COQ_GEOM[pr['geom']], G.coq_pts(pr['xy'], pr['uv']),
+                                                 G.coq_optw(pr['wxy']), G.coq_optw(pr['wuv']), q(sigma),
+                                                 STATS[stat], b(accum), b(exact), trs))
 
 
 def gen(rng, t, nmax):
@@ -46,6 +50,28 @@ def gen(rng, t, nmax):
                 if pr[key][k] <= 0:
                     pr[key][k] = 1.0
     return pr, frac_out
+
+
+def gen_tie(rng):
+    """shift-fit data whose residual norms are small integers, symmetric (mean displacement exactly 0), n a power of
+    two, and sigma*mae equal to one of the norms exactly."""
+    vecs = [(1, 0), (0, 1), (2, 0), (0, 2), (3, 0), (0, 3), (3, 4), (4, 3), (0, 5), (5, 0), (6, 0), (0, 4), (6, 8)]
+    for _ in range(200):
+        n = rng.choice([8, 16])
+        half = [rng.choice(vecs) for _ in range(n // 2)]
+        d = half + [(-a, -b_) for a, b_ in half]
+        norms = [int(round((a * a + b_ * b_) ** 0.5)) for a, b_ in d]
+        mae = sum(norms) / n
+        for sigma in (1.5, 2.0, 2.5, 3.0, 4.0):
+            c = sigma * mae
+            if c in norms and c > min(norms) and any(x > c for x in norms) | True:
+                if sum(1 for x in norms if x < c) >= 1:
+                    rng.shuffle(d)
+                    uv = [[float(rng.randrange(-20, 20)), float(rng.randrange(-20, 20))] for _ in range(n)]
+                    xy = [[u[0] + a + 7.0, u[1] + b_ - 3.0] for u, (a, b_) in zip(uv, d)]
+                    return ({'geom': 'shift', 'xy': xy, 'uv': uv, 'wxy': None, 'wuv': None, 'n': n,
+                             'wmode': 'none'}, sigma)
+    return None, None
 
 
 def run(ck):
@@ -67,13 +93,27 @@ def run(ck):
     N = ck.n(96, 1500)
     nmax = ck.n(20, 40)
     cases, meta = [], []
+    todo = []
+    # corpus first: data sets on which one iteration rejects a point and re-admits another (same count,
+    # different set) - found by an offline search, they distinguish "set unchanged" from "count unchanged"
+    for c in json.load(open(os.path.join(os.path.dirname(os.path.dirname(os.path.abspath(__file__))), 'corpus',
+                                         'c07_swaps.json'))):
+        pr = {'geom': c['geom'], 'xy': c['xy'], 'uv': c['uv'], 'wxy': None, 'wuv': None, 'n': len(c['xy']),
+              'wmode': 'none'}
+        todo.append((pr, 'corpus_swap', c['sigma'], c['stat'], c['accum'], K, False))
+    # exact ties: |resid| == sigma * mae exactly, all float operations exact (shift fit, symmetric integer
+    # displacements with integer norms, n a power of two, one clipping step): strict '<' must reject the tie
+    for t in range(ck.n(24, 200)):
+        pr, sigma = gen_tie(rng)
+        if pr is not None:
+            todo.append((pr, 'exact_tie', sigma, 'mae', bool(t % 2), 1, True))
     for t in range(N):
         pr, fo = gen(rng, t, nmax)
-        sigma = rng.choice([1.5, 2.0, 2.5, 3.0])
-        stat = ['rmse', 'mae', 'std'][(t // 4) % 3]
-        accum = bool((t // 12) % 2)
+        todo.append((pr, fo, rng.choice([1.5, 2.0, 2.5, 3.0]), ['rmse', 'mae', 'std'][(t // 4) % 3],
+                     bool((t // 12) % 2), K, False))
+    for pr, fo, sigma, stat, accum, KK, exact in todo:
         try:
-            trace = run_trace(lf, pr, sigma, stat, accum, K)
+            trace = run_trace(lf, pr, sigma, stat, accum, KK)
         except (lf.SingularMatrixError, lf.NotEnoughPointsError, ValueError) as e:
             ck.discard('implementation raised %s on generated data' % type(e).__name__)
             continue
@@ -88,10 +128,10 @@ def run(ck):
         ck.count('stat', stat)
         ck.count('accum', accum)
         ck.count('weights', pr['wmode'])
-        ck.count('outlier_fraction', fo)
+        ck.count('stream/outlier_fraction', fo)
         ck.count('effective_iterations', effmax)
         ck.count('n', pr['n'])
-        cases.append(coq_case(pr, sigma, stat, accum, trace))
+        cases.append(coq_case(pr, sigma, stat, accum, trace, exact))
         meta.append((pr, sigma, stat, accum, trace))
         if effmax >= 2:
             ck.sample({'geom': pr['geom'], 'n': pr['n'], 'sigma': sigma, 'stat': stat, 'accum': accum,
